@@ -56,7 +56,7 @@ func TestVerifC13_p384(t *testing.T) {
 	defer r.Finish()
 	r.Rule("full products over the scalar alphabet SC (curvealpha.Scalars: small values, 2^k+-1, (n+-1)/2, n-3..n+3, multiples of n, maximum, bit patterns, SHAKE values; 48-byte big-endian, plus 64-byte wide values) " +
 		"and the point alphabet PT = {O, +-kG small k, [(n+-1)/2]G, +-[s]G}: Add on PT x PT, Double on PT, ScalarMult on SC x PT, ScalarBaseMult on SC, " +
-		"CombinedMult on SCc x SCc x Q (quick: core scalars; thorough: SC x SC x PT); a case is non-trivial/distinct = distinct (operation, operand names)")
+		"CombinedMult on SCc x SCc x Q (quick: core scalars; thorough: SC x SC x PT); IsAtInfinity/IsOnCurve are queried on every freshly returned result and each result is fed back into one more Add (result+G); a case is non-trivial/distinct = distinct (operation, operand names)")
 	lib := p384.P384()
 	ref := wcurve.P384()
 	std := elliptic.P384()
@@ -101,6 +101,35 @@ func TestVerifC13_p384(t *testing.T) {
 		return out, true
 	}
 
+	// preds queries the package's predicates directly on the freshly returned
+	// coordinates and feeds the result back into one more operation.
+	G := ref.G
+	preds := func(op, id string, got res, want wcurve.Point) {
+		kind := "non-identity"
+		if want.Inf {
+			kind = "identity"
+			r.Count("identity_results_queried", 1)
+		} else {
+			r.Count("non_identity_results_queried", 1)
+		}
+		if got.x == nil || got.y == nil {
+			return
+		}
+		if v := lib.IsAtInfinity(got.x, got.y); v != want.Inf {
+			bad(op, "predicate:IsAtInfinity|fresh-result|"+kind, id, fmt.Sprintf("%s: IsAtInfinity(%x,%x) = %v, the reference says %v", id, got.x, got.y, v, want.Inf), nil)
+		}
+		if !want.Inf && !lib.IsOnCurve(got.x, got.y) {
+			bad(op, "predicate:IsOnCurve|fresh-result|"+kind, id, fmt.Sprintf("%s: IsOnCurve(%x,%x) = false", id, got.x, got.y), nil)
+		}
+		// the computed value as an operand: result + G
+		var nx, ny *big.Int
+		if p, what := verifmc.Try(func() { nx, ny = lib.Add(got.x, got.y, G.X.A, G.Y.A) }); p {
+			bad(op, "panic:"+verifmc.PanicClass(what)+"|result-as-operand|"+kind, id, what, nil)
+		} else if c13same(want, got.x, got.y) && !c13same(ref.Add(want, G), nx, ny) {
+			bad(op, "result-as-operand|"+kind, id, fmt.Sprintf("%s: (result)+G = (%x,%x), want %v", id, nx, ny, ref.Add(want, G)), nil)
+		}
+	}
+
 	// ---- fixed base
 	all := append(append([]curvealpha.Scalar{}, sc...), wideOnly...)
 	verifmc.ParallelFor(len(all), func(i int) {
@@ -121,6 +150,9 @@ func TestVerifC13_p384(t *testing.T) {
 			return
 		}
 		got, ok := call("ScalarBaseMult", id, func() (x, y *big.Int) { return lib.ScalarBaseMult(kb) })
+		if ok {
+			preds("ScalarBaseMult", id, got, want)
+		}
 		r.Eval(1)
 		r.Transition(1)
 		r.Distinct("base", s.Name)
@@ -137,6 +169,9 @@ func TestVerifC13_p384(t *testing.T) {
 		// minimal-length encoding of the same scalar (leading zero bytes stripped)
 		if mb := s.V.Bytes(); len(mb) != n {
 			got, ok := call("ScalarBaseMult", id+"/min", func() (x, y *big.Int) { return lib.ScalarBaseMult(mb) })
+			if ok {
+				preds("ScalarBaseMult", id+"/min", got, want)
+			}
 			r.Eval(1)
 			if ok && !c13same(want, got.x, got.y) {
 				bad("ScalarBaseMult", "wrong-result|short-encoding|k="+s.Name, id+"/min", fmt.Sprintf("[%s]G with %d-byte scalar: got (%x,%x) want %v", s.Name, len(mb), got.x, got.y, want),
@@ -165,6 +200,9 @@ func TestVerifC13_p384(t *testing.T) {
 			return
 		}
 		got, ok := call("ScalarMult", id, func() (x, y *big.Int) { return lib.ScalarMult(P.x, P.y, kb) })
+		if ok {
+			preds("ScalarMult", id, got, want)
+		}
 		r.Eval(1)
 		r.Transition(1)
 		r.Distinct("mult", s.Name, P.name)
@@ -196,6 +234,9 @@ func TestVerifC13_p384(t *testing.T) {
 			return
 		}
 		got, ok := call("Add", id, func() (x, y *big.Int) { return lib.Add(P.x, P.y, Q.x, Q.y) })
+		if ok {
+			preds("Add", id, got, want)
+		}
 		r.Eval(1)
 		r.Transition(1)
 		r.Distinct("add", P.name, Q.name)
@@ -218,6 +259,9 @@ func TestVerifC13_p384(t *testing.T) {
 			id := "dbl/" + P.name
 			want := ref.BaseMult(new(big.Int).Lsh(P.log, 1))
 			got, ok := call("Double", id, func() (x, y *big.Int) { return lib.Double(P.x, P.y) })
+			if ok {
+				preds("Double", id, got, want)
+			}
 			r.Eval(1)
 			r.Transition(1)
 			r.Distinct("dbl", P.name)
@@ -264,6 +308,9 @@ func TestVerifC13_p384(t *testing.T) {
 		e.Add(e, m.V)
 		want := ref.BaseMult(e)
 		got, ok := call("CombinedMult", id, func() (x, y *big.Int) { return lib.CombinedMult(Q.x, Q.y, mb, nb) })
+		if ok {
+			preds("CombinedMult", id, got, want)
+		}
 		r.Eval(1)
 		r.Transition(1)
 		r.Distinct("comb", m.Name, n.Name, Q.name)
@@ -297,4 +344,6 @@ func TestVerifC13_p384(t *testing.T) {
 	r.RequireCounter("comb_Q_eq_G_and_m_eq_n", 5)
 	r.RequireCounter("comb_m_eq_neg_n", 3)
 	r.RequireCounter("comb_Q_identity", 10)
+	r.RequireCounter("identity_results_queried", 100)
+	r.RequireCounter("non_identity_results_queried", 1000)
 }
